@@ -100,10 +100,10 @@ std::string readBack(const World& W)
 // ---------------------------------------------------------------- observed calls
 const char* OBS10[] = {"covmat", "covmat-optim", "covmat-symoptim", "kriging", "xvalid", "vario", "vario-fit", "migrate", "frombox", "addrandom",
                        "simgauss", "simtub", "simtub-nc", "simfft", "kcalc", "kcalc", "kriging", "kcalc", "kcalc", "kriging",
-                       "vario-gen", "vario-gen", "vario-dirs", "simpgs", "simbipgs", "grid-exchange"};
-const int NOBS10 = 26;
-const char* OBS13[] = {"simtub", "simtub-nc", "simfft", "gibbs", "simtub", "simtub-nc", "simpgs", "simpgs", "gibbs", "simbipgs"};
-const int NOBS13 = 10;
+                       "vario-gen", "vario-gen", "vario-dirs", "simpgs", "simbipgs", "grid-exchange", "simbayes", "kribayes"};
+const int NOBS10 = 28;
+const char* OBS13[] = {"simtub", "simtub-nc", "simfft", "gibbs", "simtub", "simtub-nc", "simpgs", "simpgs", "gibbs", "simbipgs", "simbayes"};
+const int NOBS13 = 11;
 
 int freeTargets(const World& W);
 long freeDefinedValues(const World& W, int ncolBefore);
@@ -519,6 +519,22 @@ Observed observe(World& W, const Op& op, int seedShift, Ctx* c, bool judge13, lo
     }
     return o;
   }
+  if (k == "simbayes" || k == "kribayes")
+  {
+    // Bayesian estimation / simulation: prior on the coefficient of the universality condition
+    int nc = W.dbout->getColumnNumber();
+    Model* mb = W.model->clone();
+    mb->setDriftIRF(0, 0);
+    MatrixSquareSymmetric pc(1);
+    pc.setValue(0, 0, 1. + (double)(b % 3));
+    VectorDouble pm = {8. + (double)(a % 5)};
+    if (k == "simbayes") o.ret = simbayes(W.dbin, W.dbout, mb, W.neigh, 1 + a % 2, seed, pm, pc, 10 + b % 40);
+    else o.ret = kribayes(W.dbin, W.dbout, mb, W.neigh, pm, pc, true, true);
+    o.digest = std::to_string(o.ret) + newColumnsDigest(W.dbout, nc);
+    o.freeDefined = freeDefinedValues(W, nc);
+    delete mb;
+    return o;
+  }
   if (k == "simfft")
   {
     SimuFFTParam param;
@@ -786,6 +802,7 @@ bool admissibleObs(const std::string& k, const WorldSpec& w)
   if (k == "gibbs") return w.nvar == 1 && w.nfex == 0 && w.undefIn == 0; // with or without a selection
   if (k == "simpgs") return w.ndim == 2 && w.nfex == 0 && w.outKind == 0 && w.selIn == 0;
   if (k == "simbipgs") return w.ndim == 2 && w.nfex == 0 && w.outKind == 0;
+  if (k == "simbayes" || k == "kribayes") return w.nfex == 0 && w.nvar == 1 && w.drift == 0;
   if (k == "covmat" || k == "covmat-optim" || k == "covmat-symoptim") return w.nfex == 0;
   if (k == "kcalc") return w.nvar == 1 && w.nfex == 0 && w.undefIn == 0;
   return true;
